@@ -4,10 +4,11 @@ import { loadModule, traced } from '../runtime/evalhost.mjs';
 
 export const id = 'C15';
 
-export const PLACEMENTS = ['fileHead', 'beforeFirst', 'beforeMiddle', 'beforeLast', 'insideFunction', 'trailing', 'afterImportSameLine', 'insideJsx', 'afterHashbang', 'fileHeadThenComment', 'beforeMiddleThenComment', 'fileHeadAfterComment', 'beforeLastBetweenComments'];
+export const PLACEMENTS = ['fileHead', 'beforeFirst', 'beforeMiddle', 'beforeLast', 'insideFunction', 'trailing', 'afterImportSameLine', 'insideJsx', 'afterHashbang', 'fileHeadThenComment', 'beforeMiddleThenComment', 'fileHeadAfterComment', 'beforeLastBetweenComments', 'fileHeadLaterOtherComment', 'beforeFirstLaterJsxFrag'];
 export const STYLES = ['line', 'block', 'jsdocSingle', 'jsdocMulti', 'blockMultiStar'];
 // [text, effect] effect: name | null (no effect) | {anyOf:[...]}
 export const TEXTS = [
+  ['@jsx vue$h', 'vue$h'], ['@jsx $$h', '$$h'], ['@jsx cr\u00e9er', 'cr\u00e9er'], ['@jsx h2_x', 'h2_x'], ['@jsx _h', '_h'],
   ['@jsx h', 'h'], ['@jsx  h ', 'h'], ['@jsx\th', 'h'], ['@jsx myH', 'myH'], ['@jsx $h', '$h'],
   ['@jsx h extra words', 'h'], ['@jsx h -- the hyperscript factory', 'h'], ['@jsx h (overrides the configuration)', 'h'], ['@jsx', null], ['@jsx ', null],
   ['@jsxImportSource vue', null], ['@jsxRuntime automatic', null], ['@jsxFrag F', null], ['@jsxh', null],
@@ -33,13 +34,15 @@ function moduleWith(placement, c, c2) {
   if (placement === 'afterHashbang') L.push('#!/usr/bin/env node', c);
   if (placement === 'fileHeadThenComment') L.push(c, OTHER, OTHER2);
   if (placement === 'fileHeadAfterComment') L.push(OTHER2, OTHER, c);
-  if (placement === 'fileHead') L.push(c);
+  if (placement === 'fileHead' || placement === 'fileHeadLaterOtherComment') L.push(c);
   L.push(placement === 'afterImportSameLine' ? `import C0 from "probe:C0"; ${c}` : 'import C0 from "probe:C0";');
-  if (placement === 'beforeFirst') L.push(c);
+  if (placement === 'beforeFirst' || placement === 'beforeFirstLaterJsxFrag') L.push(c);
   L.push('export const t0 = () => <div id="a" v-show={g0}><span v-foo={g0}>s</span><>frag{g0}</><input v-model={mv} /></div>;');
   if (placement === 'beforeMiddle') L.push(c);
   if (placement === 'beforeMiddleThenComment') L.push(c, OTHER, OTHER2);
   if (c2) L.push(c2.text);
+  if (placement === 'fileHeadLaterOtherComment') L.push('// an ordinary comment before a later statement');
+  if (placement === 'beforeFirstLaterJsxFrag') L.push('/* @jsxFrag F */');
   L.push('function inner() {');
   if (placement === 'insideFunction') L.push('  ' + c.replace(/\n/g, '\n  '));
   L.push('  return <C0 x={g0} v-bar:arg_m={g0}><i />{g0}</C0>;', '}');
@@ -51,7 +54,7 @@ function moduleWith(placement, c, c2) {
   return L.join('\n') + '\n';
 }
 
-const EFFECTIVE = new Set(['fileHead', 'beforeFirst', 'beforeMiddle', 'beforeLast', 'afterHashbang', 'fileHeadThenComment', 'beforeMiddleThenComment', 'fileHeadAfterComment', 'beforeLastBetweenComments']);
+const EFFECTIVE = new Set(['fileHeadLaterOtherComment', 'beforeFirstLaterJsxFrag', 'fileHead', 'beforeFirst', 'beforeMiddle', 'beforeLast', 'afterHashbang', 'fileHeadThenComment', 'beforeMiddleThenComment', 'fileHeadAfterComment', 'beforeLastBetweenComments']);
 
 export function* generate({ tier, seed }) {
   const rng = mulberry32(seed * 141650939 + 43);
@@ -91,7 +94,7 @@ const ENV = {
   globals: {
     g0: { v: { k: 'str', v: 'G' }, log: false }, mv: { v: { k: 'str', v: 'M' }, log: false },
     h: { v: { k: 'factory', id: 'h' }, log: false }, myH: { v: { k: 'factory', id: 'myH' }, log: false }, $h: { v: { k: 'factory', id: '$h' }, log: false },
-    optH: { v: { k: 'factory', id: 'optH' }, log: false }, F: { v: { k: 'sent', id: 'F' }, log: false },
+    optH: { v: { k: 'factory', id: 'optH' }, log: false }, vue$h: { v: { k: 'factory', id: 'vue$h' }, log: false }, $$h: { v: { k: 'factory', id: '$$h' }, log: false }, 'cr\u00e9er': { v: { k: 'factory', id: 'cr\u00e9er' }, log: false }, h2_x: { v: { k: 'factory', id: 'h2_x' }, log: false }, _h: { v: { k: 'factory', id: '_h' }, log: false }, F: { v: { k: 'sent', id: 'F' }, log: false },
   },
   modules: { 'probe:C0': { default: { k: 'comp', id: 'C0' } } },
 };
